@@ -202,6 +202,8 @@ def c02(ctx: Ctx) -> None:
     ctx.rule('C02-R6', 'release(): OS lock dropped before the thread lock; unlock and close apply to the swapped-out descriptor', 2)
     ctx.rule('C02-R7', 'the result of acquire() is never dropped at a call site inside the package', 1)
     ctx.rule('C02-R8', 'a function that both acquires and releases reaches release() only through the success edge of its own acquire()', 1)
+    ctx.rule('C02-R10', 'release() never releases the in-process lock more often than the caller holds it (= C12-R12)', 1)
+    ctx.rule('C02-R11', 'the lock-file descriptor is closed only by the OS acquire helper (failed attempt) and the OS release helper', 1)
     # R1/R2 via the affine interpreter
     if not r.has_tl:
         ctx.violation('C02-R1', 'no in-process threading lock attribute', f'{FILE}:{r.init.lineno}',
@@ -395,6 +397,34 @@ def c02(ctx: Ctx) -> None:
                       'after a failed (timed-out / non-blocking) acquire this function still calls release(): it unlocks and closes the '
                       'descriptor of the thread that really holds the lock, letting a third contender in',
                       witness=render(g, w), construct=construct_key(f.qualname, 'release without own acquire'))
+    _rule_surplus_release(ctx, r, 'C02-R10')
+    # R11: who may close a descriptor
+    closers = []
+    allowed = {r.os_acquire.qualname, r.os_release.qualname}
+    for f in p.all_functions():
+        if f.unit.rel != FILE:
+            continue
+        gf = build(f, p)
+        for n in gf.nodes:
+            if n.kind == 'call' and gf.res.path(n.ast.func) == 'os.close':
+                closers.append((f, gf, n))
+    # helpers called (inlined) only from the two OS helpers count as part of them
+    def owner_ok(f: Scope) -> bool:
+        if f.qualname in allowed:
+            return True
+        for host in (r.os_acquire, r.os_release):
+            gh = build(host, p, inline_methods=True)
+            if any(x.kind == 'inline_enter' and x.meta.get('name') == f.qualname for x in gh.nodes):
+                callers = [c for c in p.all_functions() if c.unit.rel == FILE and c is not f and any(
+                    isinstance(x, ast.Attribute) and x.attr == f.name for x in ast.walk(c.node))]
+                if all(c.qualname in allowed for c in callers):
+                    return True
+        return False
+    for f, gf, n in closers:
+        ctx.check('C02-R11', f'{f.qualname}: {norm(n.ast)}', gf.loc(n), owner_ok(f), 'closed by its owner',
+                  'a second place closes the descriptor: after a failed attempt the same descriptor *number* is closed twice, and if another '
+                  'FileLock object in the process was handed that number in between, the second close drops that object\'s OS lock while it '
+                  'still reports is_locked', construct=construct_key(f.qualname, 'closes descriptor'))
     r.publish(ctx)
 
 
@@ -559,6 +589,8 @@ def c12(ctx: Ctx) -> None:
     ctx.rule('C12-R10', 'the nesting counter is updated only while the in-process lock is held', 1)
     ctx.rule('C12-R11', 'acquire_ctx() hands its (blocking, timeout, poll_interval) to acquire() unchanged, each in its own position', 1)
     _rule_forwarding(ctx, r)
+    ctx.rule('C12-R12', 'release() never releases the in-process lock more often than the caller holds it', 1)
+    _rule_surplus_release(ctx, r, 'C12-R12')
     # R1 acquire
     try:
         it, outs = run_acquire(ctx, r)
@@ -698,6 +730,28 @@ def c12(ctx: Ctx) -> None:
     # R6-R8
     _rule_arguments(ctx, r)
     r.publish(ctx)
+
+
+def _rule_surplus_release(ctx: Ctx, r: LockRoles, rule: str) -> None:
+    """release() gives back exactly the levels its caller holds: a surplus release() of a plain threading.Lock succeeds
+    when another thread has taken the lock meanwhile - and frees *that* thread's hold."""
+    try:
+        it, outs = run_release(ctx, r, True)
+    except Undecided as e:
+        ctx.undecided(rule, 'release()', f'{FILE}:{r.release.lineno}', str(e))
+        return
+    seen = set()
+    for g_, n_, st_, count, final in it.surplus:
+        k = (n_.id, repr(count), repr(final))
+        if k in seen:
+            continue
+        seen.add(k)
+        ctx.violation(rule, f'release(): {count!r} thread-lock releases with depth {st_.v["DEPTH"]!r} held (facts {dict(st_.facts)})', g_.loc(n_),
+                      'one release more than the caller holds: on the non-reentrant kind the extra release() does not fail if another thread '
+                      'has just acquired the lock - it unlocks that thread\'s hold and a third contender gets in beside it',
+                      witness=st_.trace, construct=construct_key(r.release.qualname, 'surplus thread-lock release', repr(count), repr(final)))
+    if not it.surplus:
+        ctx.holds(rule, 'release(): on no path more thread-lock levels are released than the caller holds', f'{FILE}:{r.release.lineno}')
 
 
 def _rule_forwarding(ctx: Ctx, r: LockRoles) -> None:
